@@ -373,6 +373,15 @@ func (t *textGen) values(n int) {
 		t.printLine("triple", encTriple(tr), tr.String(), ors)
 		t.parseLine("triple", tr.String(), "printed")
 		t.parseLine("tripleb", tr.String(), "mutated")
+		// the same texts indented and followed by white space: parsers trim, and everything they cut is cut from
+		// what they trimmed
+		pad := func() string {
+			return strings.Repeat([]string{" ", "\t", " \t", "  "}[t.r.intn(4)], 1+t.r.intn(9))
+		}
+		for _, kt := range [][2]string{{"node", nd.String()}, {"pred", p.String()}, {"lit", l.String()}, {"obj", o.String()}, {"triple", tr.String()}, {"tripleb", tr.String()}} {
+			t.parseLine(kt[0], pad()+kt[1], "mutated")
+			t.parseLine(kt[0], pad()+kt[1]+pad(), "mutated")
+		}
 	}
 }
 
